@@ -724,7 +724,10 @@ func (g *c19G) flow(d int, inForm bool) string {
 			case 1:
 				b.WriteString("<iframe src=\"/f\"" + g.attrs(1) + ">" + core.Pick(g.r, []string{"", "fallback", "<p>no frames</p>"}) + "</iframe>")
 			case 2:
-				b.WriteString("<svg viewBox=\"0 0 24 24\"" + g.attrs(1) + ">" + g.ws() + core.Pick(g.r, []string{"<use xlink:href=\"#icon\"/>", "<path d=\"M0 0h24v24H0z\" fill=\"none\"/>", "<circle cx=\"1\" cy=\"1\" r=\"1\"></circle><title>{{ t }}</title>", "<foreignObject><p>x</p></foreignObject>"}) + g.ws() + "</svg>")
+				b.WriteString("<svg viewBox=\"0 0 24 24\"" + g.attrs(1) + ">" + g.ws() + core.Pick(g.r, []string{"<use xlink:href=\"#icon\"/>", "<path d=\"M0 0h24v24H0z\" fill=\"none\"/>", "<circle cx=\"1\" cy=\"1\" r=\"1\"></circle><title>{{ t }}</title>", "<foreignObject><p>x</p></foreignObject>",
+					// empty HTML elements below an HTML integration point, with siblings after them
+					"<foreignObject width=\"9\" height=\"9\"><span class=\"icon\"></span><b>t</b> tail</foreignObject>", "<desc><i></i>d<em>e</em></desc><rect width=\"1\" height=\"1\"></rect>",
+					"<foreignObject><div></div><p>after</p><a href=\"#\"></a><u>z</u></foreignObject>"}) + g.ws() + "</svg>")
 			default:
 				b.WriteString("<!-- " + core.Pick(g.r, []string{"block comment", "<p>commented</p>", "{{ x }}"}) + " -->")
 			}
